@@ -4,7 +4,8 @@ import AvoVerif.Model.AsmJudge
 import AvoVerif.Gen.Regs
 /-
 C05 driver.
-  asm-text <op>                      → hex of the model's rendering of the operand        (exact comparison with Asm())
+  asm-text <op>                      → hex of the model's rendering of the operand        (exact comparison with Asm();
+                                       not sent for constants: their spelling is free, see `readsBack`)
   accept-parse <op> <hex text>       → the independent parser reads the implementation's text back as the operand
   accept-line <desc> => <hex line>   → the printed instruction line is the opcode with suffixes and the operands in order
   accept-asm <desc> => ok <decoded> | rejected <hex msg> | panic
@@ -110,22 +111,63 @@ def parseDecoded (ts : List String) : Option Decoded :=
     | [] => none
   | _ => none
 
-def trimLeft (cs : List Char) : List Char := cs.dropWhile (fun c => c == ' ' || c == '\t')
+def isBlank (c : Char) : Bool := c == ' ' || c == '\t'
 
-/-- the printed line against the opcode, suffixes and operands given -/
-def judgeLine (g : Given) (line : String) : String :=
+def trimLeft (cs : List Char) : List Char := cs.dropWhile isBlank
+
+def trimBlanks (cs : List Char) : List Char := (trimLeft (trimLeft cs).reverse).reverse
+
+/-- the operand list split at commas outside parentheses, blanks around operands dropped: every spelling of the
+separator the Go assembler reads (`AX, BX` / `AX,BX` / tabs) gives the same operands -/
+def splitOpsTol : List Char → Nat → List Char → List (List Char)
+  | [], _, cur => [trimBlanks cur.reverse]
+  | ',' :: rest, 0, cur => trimBlanks cur.reverse :: splitOpsTol rest 0 []
+  | '(' :: rest, d, cur => splitOpsTol rest (d + 1) ('(' :: cur)
+  | ')' :: rest, d, cur => splitOpsTol rest (d - 1) (')' :: cur)
+  | c :: rest, d, cur => splitOpsTol rest d (c :: cur)
+
+/-- why an operand cannot read back: names that collide with the operand syntax -/
+def nameClash : XOp → String
+  | .label n => if regNames.contains n.toList then " label-is-register-name" else ""
+  | .mem sym _ _ _ _ _ =>
+    (match sym.toList with
+     | [] => ""
+     | c :: cs => if isDigit c || c == '.' || (c :: cs).any structural then " symbol-not-identifier" else "")
+  | _ => ""
+
+/-- The implementation's text of one operand reads back as the operand given.  Registers, memory references,
+labels and relative offsets: through the independent parser (`parseOp_asm`: every well-formed operand does).
+Constants: ANY spelling the assembler reads as the same integer (`$0x05`, `$5`, `$+5`) — the property pins the
+value down, not the spelling (`asmImm` depends on the text only through `readImm`). -/
+def readsBack (x : XOp) (t : List Char) : Bool :=
+  match x with
+  | .imm _ v => readImm t == some v
+  | _ => parseOp regNames t == some (canon (toOp x))
+
+/-- every operand text reads back as the operand given at its position; the error names the first one that does not -/
+def lineOperandsErr : List (List Char) → List XOp → Nat → Option String
+  | t :: ts, e :: es, i =>
+    if readsBack e t then lineOperandsErr ts es (i + 1) else some s!"bad-line-operand {i}{nameClash e}"
+  | _, _, _ => none
+
+/-- the opcode text and the operand texts of a printed instruction line -/
+def lineTexts (line : String) : List Char × List (List Char) :=
   let cs := trimLeft line.toList
-  let opc := cs.takeWhile (· != ' ')
-  let rest := trimLeft (cs.dropWhile (· != ' '))
+  let rest := trimBlanks (cs.dropWhile (fun c => !isBlank c))
+  (cs.takeWhile (fun c => !isBlank c), if rest.isEmpty then [] else splitOpsTol rest 0 [])
+
+/-- the printed line against the opcode, suffixes and operands given; `none` = it is that instruction -/
+def lineErr (g : Given) (line : String) : Option String :=
   let wantOpc := ".".intercalate (g.opcode :: g.sfx)
-  if String.ofList opc != wantOpc then s!"bad-line-opcode want {wantOpc}" else
-  let texts := if rest.isEmpty then [] else splitOps rest []
-  if texts.length != g.ops.length then s!"bad-line-operand-count want {g.ops.length} got {texts.length}" else
-  let rec go : List (List Char) → List XOp → Nat → String
-    | t :: ts, e :: es, i =>
-      if parseOp regNames t == some (canon (toOp e)) then go ts es (i + 1) else s!"bad-line-operand {i}"
-    | _, _, _ => "ok"
-  go texts g.ops 0
+  if String.ofList (lineTexts line).1 != wantOpc then some s!"bad-line-opcode want {wantOpc}" else
+  if (lineTexts line).2.length != g.ops.length then
+    some s!"bad-line-operand-count want {g.ops.length} got {(lineTexts line).2.length}" else
+  lineOperandsErr (lineTexts line).2 g.ops 0
+
+def judgeLine (g : Given) (line : String) : String :=
+  match lineErr g line with
+  | none => "ok"
+  | some why => if why == "ok" then "bad-verdict" else why
 
 def handle : Handler
   | ["asm-text", tok] => do
@@ -134,7 +176,7 @@ def handle : Handler
   | ["accept-parse", tok, text] => do
     let x ← parseXOp tok
     let t ← unhexStr text
-    some (if parseOp regNames t.toList == some (canon (toOp x)) then "ok" else "bad-parse")
+    some (if readsBack x t.toList then "ok" else "bad-parse" ++ nameClash x)
   | "accept-line" :: rest => do
     let (l, r) := splitArrow rest
     let g ← parseGiven l
